@@ -42,18 +42,19 @@ WORLDS = {
     "hubpro_T2": ("hub_pro", 2, "L_T2", "NF_none", "L_none", "H3", "At2_3", "Mv2s", "D_1UB", "Sh_a", "G_none", [0], 2, 2, 4),
     "hubre_T2": ("hub_re", 2, "L_T2", "NF_none", "L_none", "H3", "At2_3", "Mv2s", "D_1UB", "Sh_al", "G_none", [0, 2], 2, 2, 4),
     "hubre_Tri": ("hub_re", 3, "L_Tri", "NF_Tri", "L_none", "H3", "AtTri", "Mv_none", "D_1UB", "Sh_a", "G_none", [2], 2, 2, 4),
-    "pairs_T1": ("pairs", 1, "L_none", "NF_none", "L_none", "H3", "At1_3", "Mv1", "D_All3", "Sh_a", "G_31", [0, 2], 3, 3, 4),
+    "pairs_T1": ("pairs", 1, "L_none", "NF_none", "L_none", "H3", "At1_3", "Mv1", "D_All3", "Sh_a", "G_31", [0, 2], 3, 3, 5),
     "pairs_T1s": ("pairs", 1, "L_none", "NF_none", "L_none", "H2", "At1_same", "Mv_none", "D_H2B", "Sh_ab", "G_none", [2], 4, 4, 6),
-    "pairs_T2": ("pairs", 2, "L_T2", "NF_none", "L_none", "H3", "At2_3", "Mv2s", "D_H3B", "Sh_a", "G_none", [0, 2], 3, 3, 4),
+    "pairs_T2": ("pairs", 2, "L_T2", "NF_none", "L_none", "H3", "At2_3", "Mv2s", "D_H3B", "Sh_a", "G_none", [0, 2], 3, 3, 5),
     "pairs_T3": ("pairs", 3, "L_T3", "NF_none", "L_none", "H3", "At3_3", "Mv_none", "D_H3UB", "Sh_al", "G_none", [2], 3, 3, 4),
     "multi_T1": ("multi", 1, "L_none", "NF_none", "L_none", "H3", "At1_3", "Mv_none", "D_H3UB", "Sh_abl", "G_3_6_31", [0, 2], 2, 2, 3),
-    "multi_T1s": ("multi", 1, "L_none", "NF_none", "L_none", "H2", "At1_same", "Mv_none", "D_H2B", "Sh_ar", "G_6", [2], 4, 4, 6),
+    "multi_T1s": ("multi", 1, "L_none", "NF_none", "L_none", "H2", "At1_same", "Mv_none", "D_H2B", "Sh_ar", "G_6", [2], 4, 4, 7),
     "multi_T2": ("multi", 2, "L_T2", "NF_none", "L_T2", "H2", "At2_2", "Mv_none", "D_H2B", "Sh_ar", "G_6_31", [0, 1, 2], 3, 3, 6),
-    "multi_T2u": ("multi", 2, "L_T2", "NF_none", "L_T2", "H2", "At2_2", "Mv_none", "D_H2", "Sh_ar", "G_none", [1], 5, 4, 7),
+    "multi_T2u": ("multi", 2, "L_T2", "NF_none", "L_T2", "H2", "At2_2", "Mv_none", "D_H2", "Sh_ar", "G_none", [1], 5, 3, 8),
     "multi_T3": ("multi", 3, "L_T3", "NF_none", "L_none", "H3", "At3_3", "Mv_none", "D_H3UB", "Sh_abl", "G_6_11", [2], 2, 2, 3),
-    "multi_Tri": ("multi", 3, "L_Tri", "NF_Tri", "C_Tri12", "H3", "AtTri", "Mv_none", "D_H3B", "Sh_a", "G_6_11", [0, 2], 3, 3, 4),
-    "multi_TriR": ("multi", 3, "L_Tri", "NF_Tri", "C_Tri1", "H2", "At2_2", "Mv_none", "D_H2", "Sh_a", "G_none", [2], 5, 5, 7),
+    "multi_Tri": ("multi", 3, "L_Tri", "NF_Tri", "C_Tri12", "H3", "AtTri", "Mv_none", "D_H3B", "Sh_a", "G_6_11", [0, 2], 3, 3, 5),
+    "multi_TriR": ("multi", 3, "L_Tri", "NF_Tri", "C_Tri12", "H2", "At2_2", "Mv_none", "D_H2", "Sh_a", "G_none", [2], 5, 5, 8),
 }
+BUSY = ("multi_TriR",)        # worlds with the DetectBusy action (never used for -simulate: behaviours end there)
 FIELDS = ("comp", "ns", "links", "noflood", "cuts", "hosts", "at", "moves", "dsts", "shapes", "gaps", "nbufs",
           "d_edges", "dq", "dt")
 
@@ -73,8 +74,10 @@ def world(w):
 def consts(w, nbuf, strict, d):
   comp, ns, links, nf, cuts, hosts, at, mv, dsts, shapes, gaps = WORLDS[w][:11]
   return ("CONSTANTS Comp = \"%s\"\n  NS = %d\n  NP = 3\n  Links <- %s\n  NoFlood <- %s\n  Cuts <- %s\n  Hosts <- %s\n"
-          "  InitAt <- %s\n  MovePorts <- %s\n  Dsts <- %s\n  Shapes <- %s\n  NBuf = %d\n  Gaps <- %s\n  Strict = %s\n  D = %d\n"
-          % (comp, ns, links, nf, cuts, hosts, at, mv, dsts, shapes, nbuf, gaps, "TRUE" if strict else "FALSE", d))
+          "  InitAt <- %s\n  MovePorts <- %s\n  Dsts <- %s\n  Shapes <- %s\n  NBuf = %d\n  Gaps <- %s\n  Strict = %s\n  Busy = %s\n"
+          "  D = %d\n"
+          % (comp, ns, links, nf, cuts, hosts, at, mv, dsts, shapes, nbuf, gaps, "TRUE" if strict else "FALSE",
+             "TRUE" if w in BUSY else "FALSE", d))
 
 
 def names(w):
